@@ -56,7 +56,7 @@ var plans = map[string]map[string][]phase{
 		"thorough": {{"N", false, "chan", "probe", 1, 2400, 16}},
 	},
 	"C19": {
-		"quick":    {{"N", false, "chan", "probe", 1, 35, 16}, {"R", true, "pipe", "track", 4, 15, 16}},
+		"quick":    {{"N", false, "chan", "probe", 1, 30, 16}, {"R", true, "pipe", "track", 4, 12, 16}},
 		"thorough": {{"N", false, "chan", "probe", 1, 2700, 16}, {"R", true, "pipe", "track", 4, 900, 16}},
 	},
 }
@@ -124,6 +124,7 @@ var (
 	fSeed  = flag.Uint64("seed", 20260926, "VERIF_SEED")
 	fVerif = flag.String("verif", "/verif", "verif root")
 	fBin   = flag.String("bin", "", "directory with simworker and simworker-race")
+	fOut   = flag.String("out", "", "where evidence/, replays/ and .tmp/ live (default: the verif root)")
 	fScale = flag.Float64("scale", 1, "scale every phase budget (testing)")
 )
 
@@ -134,12 +135,15 @@ func trouble(format string, a ...any) {
 
 func main() {
 	flag.Parse()
+	if *fOut == "" {
+		*fOut = *fVerif
+	}
 	start := time.Now()
 	phases, ok := plans[*fProp][*fTier]
 	if !ok {
 		trouble("no plan for %s/%s", *fProp, *fTier)
 	}
-	scratch, err := os.MkdirTemp(filepath.Join(*fVerif, ".tmp"), "drv-")
+	scratch, err := os.MkdirTemp(filepath.Join(*fOut, ".tmp"), "drv-")
 	if err != nil {
 		trouble("%v", err)
 	}
@@ -197,7 +201,7 @@ func main() {
 		exit = handleViolation(viol, violPhase, scratch, ev)
 	}
 	ev.wall = time.Since(start).Seconds()
-	ev.write(filepath.Join(*fVerif, "evidence", *fProp+".json"))
+	ev.write(filepath.Join(*fOut, "evidence", *fProp+".json"))
 	if exit == 0 {
 		if ev.detDone != ev.detAgreed {
 			trouble("determinism self-check: %d of %d double-runs disagreed", ev.detDone-ev.detAgreed, ev.detDone)
@@ -215,6 +219,11 @@ func workerCmd(ph phase, scratch string, args ...string) *exec.Cmd {
 	bin := filepath.Join(*fBin, "simworker")
 	if ph.Race {
 		bin = filepath.Join(*fBin, "simworker-race")
+	}
+	if ph.Race {
+		// the race build is ~50x slower per step: sample the fault plans of
+		// a base instead of enumerating them
+		args = append([]string{"-plancap", "40"}, args...)
 	}
 	base := []string{"-prop", *fProp, "-seed", strconv.FormatUint(*fSeed, 10), "-gate", ph.Gate, "-lock", ph.Lock, "-procs", strconv.Itoa(ph.Procs), "-dir", scratch}
 	if *fTier == "thorough" {
@@ -287,7 +296,7 @@ func detCheck(ph phase, scratch string, hashes map[uint64]uint64, done, agreed i
 		n = 400
 	}
 	hf := filepath.Join(scratch, "hashes-det.bin")
-	cmd := workerCmd(ph, scratch, "-worker", "0", "-workers", strconv.Itoa(ph.Workers), "-maxruns", strconv.Itoa(n), "-hashes", hf, "-samples", "0")
+	cmd := workerCmd(ph, scratch, "-worker", "0", "-workers", strconv.Itoa(ph.Workers), "-maxruns", strconv.Itoa(n), "-hashes", hf, "-samples", "0", "-enumlimit", "20")
 	if ph.Race {
 		lp := filepath.Join(scratch, "race-det")
 		cmd.Args = append(cmd.Args, "-racelog", lp)
@@ -349,8 +358,8 @@ func replayFile(ph phase, scratch, path string) (*replayOutcome, error) {
 // replays the minimised file once more, writes the replay file and prints the
 // verdict line.  Returns the exit code.
 func handleViolation(v *replay, ph phase, scratch string, ev *evidence) int {
-	os.MkdirAll(filepath.Join(*fVerif, "replays"), 0o755)
-	path := filepath.Join(*fVerif, "replays", fmt.Sprintf("%s-%d-run%d.json", *fProp, *fSeed, v.Run))
+	os.MkdirAll(filepath.Join(*fOut, "replays"), 0o755)
+	path := filepath.Join(*fOut, "replays", fmt.Sprintf("%s-%d-run%d.json", *fProp, *fSeed, v.Run))
 	b, _ := json.Marshal(v)
 	if err := os.WriteFile(path, b, 0o644); err != nil {
 		trouble("%v", err)
@@ -472,7 +481,7 @@ func (e *evidence) merge(st *stats) {
 
 func (e *evidence) write(path string) {
 	// exact distinct count of non-trivial runs, from the per-run hash records
-	ms, _ := filepath.Glob(filepath.Join(e.scratch, "hashes-*.bin"))
+	ms, _ := filepath.Glob(filepath.Join(e.scratch, "hashes-*.bin*"))
 	for _, m := range ms {
 		if strings.HasSuffix(m, "hashes-det.bin") {
 			continue
